@@ -895,6 +895,14 @@ func (e *SpecEnv) call(x *SExpr) Val {
 			// samebase(r, x): r and x are views of the same underlying byte sequence (substring / subslice)
 			a, b := e.eval(args[0]), e.eval(args[1])
 			return boolVal(Eq(a.C[0], b.C[0]))
+		case "startoff":
+			// startoff(x): absolute position of the first element of view x in its backing sequence
+			a := e.eval(args[0])
+			return intVal(a.C[1])
+		case "endoff":
+			// endoff(x): absolute position just past the last element of view x
+			a := e.eval(args[0])
+			return intVal(BVAdd(a.C[1], a.C[2]))
 		case "suboff":
 			// suboff(r, x): offset of view r inside view x (meaningful when samebase(r, x))
 			a, b := e.eval(args[0]), e.eval(args[1])
